@@ -8,12 +8,23 @@ uint32_t __vf_landing(void **clauses, int n, int cleanup);
 uint32_t __vf_typeid_for(void *ti);
 void *__vf_alloca(size_t n);
 static inline void __vf_fence(void) {}
-static inline void __vf_trap(void) { __CPROVER_assume(0); }
 #ifndef __CPROVER__
+#include <stdlib.h>
+#include <stdio.h>
 #define __CPROVER_assume(x) do { if(!(x)) abort(); } while(0)
+#define __CPROVER_assert(x, m) do { if(!(x)) { fprintf(stderr, "assert: %s\n", m); abort(); } } while(0)
 #define __CPROVER_atomic_begin()
 #define __CPROVER_atomic_end()
 #endif
+/* atomic sections only matter (and only cost CBMC's concurrency encoding) in threaded harnesses */
+#if defined(VF_THREADS) && defined(__CPROVER__)
+#define VF_ATOMIC_BEGIN() __CPROVER_atomic_begin()
+#define VF_ATOMIC_END() __CPROVER_atomic_end()
+#else
+#define VF_ATOMIC_BEGIN() ((void)0)
+#define VF_ATOMIC_END() ((void)0)
+#endif
+static inline void __vf_trap(void) { __CPROVER_assume(0); }
 void __vf_unmodeled(const char *name);
 static inline void *__vf_typed_new(void *p, uint64_t asked, uint64_t have) { __CPROVER_assume(p != 0); __CPROVER_assert(asked <= have, "typed new: size"); return p; }
 void *malloc(size_t); void free(void*);
